@@ -15,7 +15,7 @@ Property "{p['title']}":
 Requirements for the change:
 - It must need something specific to manifest — a particular interleaving, a crash or fault at a particular point, a multi-step sequence of operations, an unusual input shape or value, or two cooperating sites that each look fine alone. It must NOT be something ordinary use exposes at once, and must not be caught by the existing test suite.
 - Small (ideally under ~40 changed lines), plausible, no new dependencies, no test edits, no cfg tricks, no comments that announce the bug.
-- Provide a demonstration: a Rust integration test file (put it at {d}/wt/tests/zz_mut_demo.rs) that FAILS with your change and PASSES on the unchanged code (verify both, e.g. with `git stash` on the src change). The demo should use only the crate's public API.
+- Provide a demonstration: a Rust integration test file (put it at {d}/wt/tests/zz_mut_demo.rs) that FAILS with your change and PASSES on the unchanged code (verify both; do NOT use `git stash` - the stash is shared between worktrees - use `git diff -- src > /tmp/mut/…/my.diff; git checkout -- src; …; git apply my.diff` instead). The demo should use only the crate's public API.
 - Existing tests: run `cargo test --lib` plus the integration tests in tests/ that touch the area you changed and make sure they pass with your change. (The full suite — `cargo nextest run --workspace --no-fail-fast --tool-config-file pb:/w/lib/nextest.toml --profile pb --test-threads 8 --offline` — takes long to build; run it if you can afford it, otherwise say which subsets you ran.) If an existing test fails, pick a different change.
 
 Deliverables, written into {d}/out/ :
